@@ -13,6 +13,7 @@ import (
 	"fmt"
 	"io"
 	"os"
+	"regexp"
 	"sort"
 	"strconv"
 	"strings"
@@ -28,6 +29,60 @@ import (
 )
 
 func init() { vh.Register("C09", Run) }
+
+// ---------------------------------------------------------------------------------------
+// interning of byte strings: every distinct string is written once per shard as a definition
+// (Coq elaborates a hex literal at ~40us per character; traces repeat the same few strings)
+// ---------------------------------------------------------------------------------------
+
+var internIDs = map[string]string{}
+var internDefs = map[string]string{}
+
+func hxs(s string) string {
+	if s == "" {
+		return "(@nil N)"
+	}
+	if id, ok := internIDs[s]; ok {
+		return id
+	}
+	id := fmt.Sprintf("k%d", len(internIDs))
+	internIDs[s] = id
+	internDefs[id] = vh.HxS(s)
+	return id
+}
+
+func hxList(l []string) string {
+	items := make([]string, len(l))
+	for i, s := range l {
+		items[i] = hxs(s)
+	}
+	return vh.List(items)
+}
+
+var internRe = regexp.MustCompile(`\bk[0-9]+\b`)
+
+// preludeFor builds one table definition with the strings a shard uses and rewrites the
+// shard's terms to index it (one Coq command instead of one per string).
+func preludeFor(terms []string) (string, []string) {
+	local := map[string]int{}
+	var defs []string
+	out := make([]string, len(terms))
+	for i, t := range terms {
+		out[i] = internRe.ReplaceAllStringFunc(t, func(id string) string {
+			j, ok := local[id]
+			if !ok {
+				j = len(local)
+				local[id] = j
+				defs = append(defs, internDefs[id])
+			}
+			return fmt.Sprintf("(K %d%%nat)", j)
+		})
+	}
+	if len(defs) == 0 {
+		defs = append(defs, "(@nil N)")
+	}
+	return "Definition ktab : list bytes := [\n  " + strings.Join(defs, ";\n  ") + "\n].\nDefinition K (i : nat) : bytes := nth i ktab [].", out
+}
 
 // ---------------------------------------------------------------------------------------
 // case descriptions (also the replay / corpus format)
@@ -205,19 +260,19 @@ func (e *capEvent) Msg(msg string) {
 	}
 	switch msg {
 	case "Matching rule":
-		e.s.events = append(e.s.events, fmt.Sprintf("OMatching %s %s %s", vh.Z(int64(e.ints["rule_id"])), vh.HxS(e.strs["variable_name"]), vh.HxS(e.strs["key"])))
+		e.s.events = append(e.s.events, fmt.Sprintf("OMatching %s %s %s", vh.Z(int64(e.ints["rule_id"])), hxs(e.strs["variable_name"]), hxs(e.strs["key"])))
 		e.s.human = append(e.s.human, fmt.Sprintf("matching rule=%d %s:%s", e.ints["rule_id"], e.strs["variable_name"], e.strs["key"]))
 	case "Evaluating action":
-		e.s.events = append(e.s.events, "OAct "+vh.HxS(e.strs["action"]))
+		e.s.events = append(e.s.events, "OAct "+hxs(e.strs["action"]))
 		e.s.human = append(e.s.human, "act "+e.strs["action"])
 	case "Action evaluated":
-		e.s.events = append(e.s.events, fmt.Sprintf("OSetvar %s %s %s", vh.HxS(e.strs["var_key"]), vh.HxS(e.strs["var_value"]), vh.Z(int64(e.ints["rule_id"]))))
+		e.s.events = append(e.s.events, fmt.Sprintf("OSetvar %s %s %s", hxs(e.strs["var_key"]), hxs(e.strs["var_value"]), vh.Z(int64(e.ints["rule_id"]))))
 		e.s.human = append(e.s.human, fmt.Sprintf("setvar %q=%q rule=%d", e.strs["var_key"], e.strs["var_value"], e.ints["rule_id"]))
 	case "Evaluating flow action for rule":
-		e.s.events = append(e.s.events, "OFlow "+vh.HxS(e.strs["action"]))
+		e.s.events = append(e.s.events, "OFlow "+hxs(e.strs["action"]))
 		e.s.human = append(e.s.human, "flow "+e.strs["action"])
 	case "Executing disruptive action for rule":
-		e.s.events = append(e.s.events, "ODisr "+vh.HxS(e.strs["action"]))
+		e.s.events = append(e.s.events, "ODisr "+hxs(e.strs["action"]))
 		e.s.human = append(e.s.human, "disruptive "+e.strs["action"])
 	case "Rule matched":
 		e.s.events = append(e.s.events, "ORuleMatched "+vh.Z(int64(e.ints["rule_id"])))
@@ -291,7 +346,7 @@ var opKind = map[string]int{
 	"unconditionalMatch": 0, "beginsWith": 1, "contains": 2, "streq": 3, "eq": 4, "gt": 5, "ge": 6, "lt": 7, "le": 8, "rx": 9,
 }
 
-func optHx(present bool, s string) string { return vh.OptionOf(present, vh.HxS(s)) }
+func optHx(present bool, s string) string { return vh.OptionOf(present, hxs(s)) }
 
 func linkTerm(r *corazawaf.Rule, d LinkDesc) (string, error) {
 	dump := corazawaf.VerifC09Dump(r)
@@ -303,7 +358,7 @@ func linkTerm(r *corazawaf.Rule, d LinkDesc) (string, error) {
 			if !ok || t.HasRx || t.NumExceptions != 0 {
 				return "", fmt.Errorf("target outside the model: %+v", t)
 			}
-			ts = append(ts, fmt.Sprintf("Build_target %s %s %s", cv, vh.HxS(t.KeyStr), vh.Bool(t.Count)))
+			ts = append(ts, fmt.Sprintf("Build_target %s %s %s", cv, hxs(t.KeyStr), vh.Bool(t.Count)))
 		}
 		fn := strings.TrimPrefix(strings.TrimPrefix(dump.OpFunction, "!"), "@")
 		k, ok := opKind[fn]
@@ -317,7 +372,7 @@ func linkTerm(r *corazawaf.Rule, d LinkDesc) (string, error) {
 			}
 			arg = arg[1:]
 		}
-		op = fmt.Sprintf("(Some (%s, ROp %s %s, %s))", vh.List(ts), vh.N(int64(k)), vh.HxS(arg), vh.Bool(dump.OpNegation))
+		op = fmt.Sprintf("(Some (%s, ROp %s %s, %s))", vh.List(ts), vh.N(int64(k)), hxs(arg), vh.Bool(dump.OpNegation))
 	}
 	if dump.NumTransformations != len(d.Tfs) {
 		return "", fmt.Errorf("compiled rule has %d transformations, description %d", dump.NumTransformations, len(d.Tfs))
@@ -342,22 +397,22 @@ func linkTerm(r *corazawaf.Rule, d LinkDesc) (string, error) {
 				if val != nil {
 					raw += "=" + val.String()
 				}
-				acts = append(acts, "RSetvar "+vh.HxS(raw))
+				acts = append(acts, "RSetvar "+hxs(raw))
 			} else {
-				acts = append(acts, "RNd "+vh.HxS(a.Name))
+				acts = append(acts, "RNd "+hxs(a.Name))
 			}
 		case plugintypes.ActionTypeDisruptive:
 			if a.Name != "deny" && a.Name != "pass" {
 				return "", fmt.Errorf("disruptive action outside the model: %s", a.Name)
 			}
-			acts = append(acts, fmt.Sprintf("RDisr %s %s", vh.HxS(a.Name), vh.Bool(a.Name == "deny")))
+			acts = append(acts, fmt.Sprintf("RDisr %s %s", hxs(a.Name), vh.Bool(a.Name == "deny")))
 		case plugintypes.ActionTypeFlow:
 			if a.Name != "chain" {
 				return "", fmt.Errorf("flow action outside the model: %s", a.Name)
 			}
-			acts = append(acts, "RFlow "+vh.HxS(a.Name))
+			acts = append(acts, "RFlow "+hxs(a.Name))
 		default:
-			acts = append(acts, "ROther "+vh.HxS(a.Name))
+			acts = append(acts, "ROther "+hxs(a.Name))
 		}
 	}
 	sev := "None"
@@ -371,14 +426,14 @@ func linkTerm(r *corazawaf.Rule, d LinkDesc) (string, error) {
 	if r.LogData != nil {
 		ld = optHx(true, r.LogData.String())
 	}
-	return fmt.Sprintf("(RL %s %s %s %s %s %s %s %s %s %s %s %s)", vh.Z(int64(r.ID_)), vh.HxS(r.LogID_), vh.Z(int64(r.ParentID_)), op,
+	return fmt.Sprintf("(RL %s %s %s %s %s %s %s %s %s %s %s %s)", vh.Z(int64(r.ID_)), hxs(r.LogID_), vh.Z(int64(r.ParentID_)), op,
 		vh.List(tfs), vh.Bool(r.MultiMatch), vh.Bool(r.Capture), vh.Bool(r.HasChain), msg, ld, sev, vh.List(acts)), nil
 }
 
 func pairList(l [][2]string) string {
 	items := make([]string, len(l))
 	for i, p := range l {
-		items[i] = "(" + vh.HxS(p[0]) + ", " + vh.HxS(p[1]) + ")"
+		items[i] = "(" + hxs(p[0]) + ", " + hxs(p[1]) + ")"
 	}
 	return vh.List(items)
 }
@@ -386,7 +441,7 @@ func pairList(l [][2]string) string {
 func groupTerm(keys []string, m map[string][]string) string {
 	items := make([]string, len(keys))
 	for i, k := range keys {
-		items[i] = "(" + vh.HxS(k) + ", " + vh.HxList(m[k]) + ")"
+		items[i] = "(" + hxs(k) + ", " + hxList(m[k]) + ")"
 	}
 	return vh.List(items)
 }
@@ -417,11 +472,11 @@ func runCase(c *Case) (term string, err error) {
 	case "atoi":
 		v, e := strconv.Atoi(c.raw())
 		c.Obs = fmt.Sprintf("%d err=%v", v, e != nil)
-		return fmt.Sprintf("CAtoi %s %s %s", vh.HxS(c.raw()), vh.Bool(e == nil), vh.Z(int64(v))), nil
+		return fmt.Sprintf("CAtoi %s %s %s", hxs(c.raw()), vh.Bool(e == nil), vh.Z(int64(v))), nil
 	case "itoa":
 		o := strconv.Itoa(int(c.Z))
 		c.Obs = o
-		return fmt.Sprintf("CItoa %s %s", vh.Z(c.Z), vh.HxS(o)), nil
+		return fmt.Sprintf("CItoa %s %s", vh.Z(c.Z), hxs(o)), nil
 	}
 	return "", fmt.Errorf("unknown case kind %q", c.Kind)
 }
@@ -429,7 +484,7 @@ func runCase(c *Case) (term string, err error) {
 func tokTerm(m macro.Macro) string {
 	var items []string
 	for _, t := range macro.VerifC09Tokens(m) {
-		items = append(items, fmt.Sprintf("OTok %s %s %s", vh.HxS(t.Text), vh.HxS(t.Variable), vh.HxS(t.Key)))
+		items = append(items, fmt.Sprintf("OTok %s %s %s", hxs(t.Text), hxs(t.Variable), hxs(t.Key)))
 	}
 	return vh.List(items)
 }
@@ -443,7 +498,7 @@ func runInit(c *Case) string {
 	e := a.Init(r, c.raw())
 	if e != nil {
 		c.Obs = "error: " + e.Error()
-		return fmt.Sprintf("CInit %s false false [] false []", vh.HxS(c.raw()))
+		return fmt.Sprintf("CInit %s false false [] false []", hxs(c.raw()))
 	}
 	key, val, rm, _ := actions.VerifC09Setvar(a)
 	c.Obs = "ok"
@@ -451,17 +506,17 @@ func runInit(c *Case) string {
 	if val != nil {
 		vt = tokTerm(val)
 	}
-	return fmt.Sprintf("CInit %s true %s %s %s %s", vh.HxS(c.raw()), vh.Bool(rm), tokTerm(key), vh.Bool(val != nil), vt)
+	return fmt.Sprintf("CInit %s true %s %s %s %s", hxs(c.raw()), vh.Bool(rm), tokTerm(key), vh.Bool(val != nil), vt)
 }
 
 func runMacro(c *Case) string {
 	m, e := macro.NewMacro(c.raw())
 	if e != nil {
 		c.Obs = "error: " + e.Error()
-		return fmt.Sprintf("CMacro %s false []", vh.HxS(c.raw()))
+		return fmt.Sprintf("CMacro %s false []", hxs(c.raw()))
 	}
 	c.Obs = "ok"
-	return fmt.Sprintf("CMacro %s true %s", vh.HxS(c.raw()), tokTerm(m))
+	return fmt.Sprintf("CMacro %s true %s", hxs(c.raw()), tokTerm(m))
 }
 
 func runTx(c *Case) (string, error) {
@@ -554,9 +609,9 @@ func runTx(c *Case) (string, error) {
 	for _, mr := range tx.MatchedRules() {
 		var mds []string
 		for _, md := range mr.MatchedDatas() {
-			mds = append(mds, fmt.Sprintf("OMD %s %s %s %s %s", vh.HxS(md.Variable().Name()), vh.HxS(md.Key()), vh.HxS(md.Value()), vh.HxS(md.Message()), vh.HxS(md.Data())))
+			mds = append(mds, fmt.Sprintf("OMD %s %s %s %s %s", hxs(md.Variable().Name()), hxs(md.Key()), hxs(md.Value()), hxs(md.Message()), hxs(md.Data())))
 		}
-		mrs = append(mrs, fmt.Sprintf("OMR %s %s %s %s %s", vh.Z(int64(mr.Rule().ID())), vh.Z(int64(mr.Rule().Severity().Int())), vh.HxS(mr.Message()), vh.HxS(mr.Data()), vh.List(mds)))
+		mrs = append(mrs, fmt.Sprintf("OMR %s %s %s %s %s", vh.Z(int64(mr.Rule().ID())), vh.Z(int64(mr.Rule().Severity().Int())), hxs(mr.Message()), hxs(mr.Data()), vh.List(mds)))
 		c.ObsMatched = append(c.ObsMatched, mr.Rule().ID())
 	}
 	c.ObsTX, c.ObsHS, c.ObsInt = txm, hs, intr
@@ -565,7 +620,7 @@ func runTx(c *Case) (string, error) {
 		c.ObsTrace = append(append([]string{}, c.ObsTrace[:60]...), "...")
 	}
 	term := fmt.Sprintf("CRun %s %s %s %s %s %s %s %s %s %s %s %s", vh.Bool(c.Ordered), pairList(c.Args), pairList(c.Hdrs), vh.List(rterms),
-		groupTerm(txKeys, txm), vh.HxS(hs), vh.HxS(mv), vh.HxS(mvn), groupTerm(mvKeys, mvm), vh.Z(int64(intr)), vh.List(mrs), vh.List(sk.events))
+		groupTerm(txKeys, txm), hxs(hs), hxs(mv), hxs(mvn), groupTerm(mvKeys, mvm), vh.Z(int64(intr)), vh.List(mrs), vh.List(sk.events))
 	return term, nil
 }
 
@@ -657,13 +712,13 @@ func Run(cfg vh.Config) (*vh.Result, error) {
 		for _, c := range fixedRunCases() {
 			add(c)
 		}
-		for i := 0; i < cfg.Pick(120, 3000); i++ {
+		for i := 0; i < cfg.Pick(120, 1500); i++ {
 			add(genSum(rng))
 		}
-		for i := 0; i < cfg.Pick(360, 14000); i++ {
+		for i := 0; i < cfg.Pick(360, 6000); i++ {
 			add(genRun(rng, true))
 		}
-		for i := 0; i < cfg.Pick(70, 3000); i++ {
+		for i := 0; i < cfg.Pick(70, 1500); i++ {
 			add(genRun(rng, false))
 		}
 	}
@@ -685,9 +740,10 @@ func Run(cfg vh.Config) (*vh.Result, error) {
 			if j > len(ts) {
 				j = len(ts)
 			}
+			prelude, rewritten := preludeFor(ts[i:j])
 			info, err := vh.WriteShard(cfg.OutDir, vh.Shard{
 				Name: fmt.Sprintf("C09_%d", k), Imports: "From Verif Require Import Base Transform Setvar CorrC09.",
-				CaseType: "CorrC09.case", MismatchF: "CorrC09.mismatches", Terms: ts[i:j], Cases: cs[i:j],
+				CaseType: "CorrC09.case", MismatchF: "CorrC09.mismatches", Terms: rewritten, Cases: cs[i:j], Prelude: prelude,
 			})
 			if err != nil {
 				return err
